@@ -84,6 +84,7 @@ type world struct {
 	composed   bool    // Compose returned in this reconcile
 	composeErr error
 	fnOverride func(context.Context, string, *fnv1.RunFunctionRequest) (*fnv1.RunFunctionResponse, error)
+	rfail      map[string]bool // PT: templates that cannot be rendered right now
 }
 
 func (w *world) idOf(name string) string {
@@ -296,7 +297,11 @@ func (w *world) setTemplates() {
 			res = append(res, map[string]any{
 				"name": n,
 				"base": map[string]any{"apiVersion": "ex.org/v1", "kind": "Thing", "spec": map[string]any{"param": n}},
-				"patches": []any{map[string]any{"type": "FromCompositeFieldPath", "fromFieldPath": "spec.size", "toFieldPath": "spec.size"}},
+				"patches": []any{
+					map[string]any{"type": "FromCompositeFieldPath", "fromFieldPath": "spec.size", "toFieldPath": "spec.size"},
+					// a Required patch: the template cannot be rendered while the XR field is missing (env step "rfail")
+					map[string]any{"type": "FromCompositeFieldPath", "fromFieldPath": "spec.req" + n, "toFieldPath": "spec.req", "policy": map[string]any{"fromFieldPath": "Required"}},
+				},
 			})
 		}
 		_ = unstructured.SetNestedSlice(u.Object, res, "spec", "resources")
@@ -316,6 +321,20 @@ func (w *world) env(e replay.Entry) {
 		if w.mode == "PT" {
 			w.setTemplates()
 		}
+	case "rfail":
+		w.rfail = map[string]bool{}
+		for _, n := range e.Raw["names"].([]any) {
+			w.rfail[n.(string)] = true
+		}
+		w.s.Mutate(xrKey, func(u *unstructured.Unstructured) {
+			for _, n := range w.names {
+				if w.rfail[n] {
+					unstructured.RemoveNestedField(u.Object, "spec", "req"+n)
+				} else {
+					_ = unstructured.SetNestedField(u.Object, "x", "spec", "req"+n)
+				}
+			}
+		})
 	case "remove":
 		w.s.Remove(cdKey(w.rev[e.O]))
 	case "markdeleted":
@@ -436,6 +455,9 @@ func newWorld(tw *trace.Writer, id string, init map[string]any) *world {
 	_ = unstructured.SetNestedField(xr.Object, revName, "spec", "compositionRevisionRef", "name")
 	_ = unstructured.SetNestedField(xr.Object, "Manual", "spec", "compositionUpdatePolicy")
 	_ = unstructured.SetNestedField(xr.Object, "large", "spec", "size")
+	for _, n := range w.names {
+		_ = unstructured.SetNestedField(xr.Object, "x", "spec", "req"+n)
+	}
 	foreign := &metav1.OwnerReference{APIVersion: "ex.org/v1", Kind: "XThing", Name: "other-xr", UID: "foreign-uid", Controller: ptr.To(true)}
 	switch foreignAt {
 	case "ref":
@@ -548,7 +570,13 @@ func (w *world) reconcile(al *replay.Aligner, sw *sweep) int {
 	}
 	faulty := al.Injected != ""
 	p := w.post()
-	thisOK := res == "ok" && !faulty && !w.pfail && w.quiet
+	unrendered := false
+	for _, n := range w.want {
+		if w.rfail[n] {
+			unrendered = true // the composed state cannot match the desired state
+		}
+	}
+	thisOK := res == "ok" && !faulty && !w.pfail && w.quiet && !unrendered
 	steady := thisOK && w.prevOK
 	w.emit("end", map[string]any{"result": res, "faulty": faulty, "steady": steady})
 	w.prevOK = thisOK
